@@ -64,6 +64,7 @@ func main() {
 		for k := 0; k < c; k++ {
 			var fp **sshdvec.FifoSession
 			nrec++
+			sshdvec.SetDebug(nrec%3 == 2)
 			if *fifoDir != "" && nrec%*fifoEvery == 0 {
 				fp = &sess
 			}
